@@ -5,7 +5,7 @@ func init() {
 	serve("C01", "T1", "T2", "T3", "T6", "T8", "T9", "T10", "T11", "B1", "B2", "B3", "B3b")
 	serve("C02", "B1", "B1n", "B2", "B3", "B3b", "B4", "B6")
 	serve("C03", "F1", "F2", "T6", "T9", "B4", "B3b", "G6r", "L1@io")
-	serve("C04", "W1", "W2", "W2b", "W3", "V6", "T11", "W5", "W6", "W7", "W8", "W2b", "G15", "G16", "G17", "S7", "S8", "G18", "G19", "G20", "G7r", "P8", "V7", "L8", "L9", "T5", "T11")
+	serve("C04", "W1", "W2", "W2b", "W3", "V6", "T11", "W5", "W6", "W7", "W8", "W2b", "G15", "G16", "G17", "S7", "S8", "G18", "G19", "G20", "G7r", "P8", "V7", "V8", "L8", "L9", "T5", "T11")
 	serve("C05", "V2", "V1", "V4", "V5", "V7")
 	serve("C07", "B6", "B6m", "G5", "G6", "G6r", "B2", "B3")
 	serve("C08", "G4", "G8", "G12", "G18", "G19", "G6", "R4", "B6", "B6m")
@@ -14,7 +14,7 @@ func init() {
 	serve("C11", "R1", "R2", "R3", "R4", "P1", "P2", "G17")
 	serve("C12", "S2", "S3", "S4", "S6", "S7", "S8", "V3")
 	serve("C13", "S1", "S5", "S7")
-	serve("C14", "L4", "L1", "L5", "L8", "G6", "G6r", "V1", "V7")
+	serve("C14", "L4", "L1", "L5", "L8", "G6", "G6r", "V1", "V7", "V8")
 	serve("C15", "L1", "L8", "L9", "G3", "G13", "L7")
 	serve("C16", "G1", "G1b", "G9", "G10", "R4")
 	serve("C17", "P1", "L2", "L3", "G11", "G20")
